@@ -158,59 +158,110 @@ def run(rep, tier):
 
 # ------------------------------------------------------------------------------------------ R8.2
 def check_count_guards(rep, F):
-    sites = 0
+    """R8.2.  A *count guard* is an ==/!= comparison that involves the topology's bead count (directly, or - in a file-local helper - through
+    a parameter that receives it) and whose mismatch edge cannot reach a normal exit of its function (it ends in a throw).  A call of a helper
+    that contains such a guard is a guard of the caller."""
     wanted = {"groreader.cc": 1, "lammpsdumpreader.cc": 1, "pdbreader.cc": 1, "dlpolytrajectoryreader.cc": 2, "xyzreader.h": 1,
               "lammpsdatareader.cc": 1}
     found = {k: 0 for k in wanted}
-    for f in F.funcs:
-        base = os.path.basename(f.file)
-        if base not in wanted or f.j["template"] == "pattern":
+    COUNT = ("Topology::BeadCount", "XYZReader::getContainerSize")
+
+    def is_count_call(n):
+        n = unwrap(n)
+        return n.get("k") == "mcall" and (n.get("callee") or "").endswith(COUNT)
+
+    def mismatch_throws(f, g, c):
+        """no normal exit of f is reachable over the edge taken when the two counts differ"""
+        cbs = g.cond_blocks(c["id"])
+        if not cbs:
+            return None
+        exits_ = set(g.exit_blocks(normal=True))
+        for b, neg in cbs:
+            differs_when = (c["op"] == "!=")            # truth value of the comparison when the counts differ
+            idx = 0 if (differs_when != neg) else 1
+            s0 = g.succs[b][idx]
+            if s0 is None:
+                continue
+            seen, todo = {s0}, [s0]
+            while todo:
+                x = todo.pop()
+                if x in exits_:
+                    return False
+                for s_ in g.succs[x]:
+                    if s_ is not None and s_ not in seen and s_ != g.exit:
+                        seen.add(s_)
+                        todo.append(s_)
+        return True
+
+    funcs = [f for f in F.funcs if os.path.basename(f.file) in wanted and f.j["template"] != "pattern" and "cfg" in f.j]
+    cfgs = {}
+
+    def cfg_of(f):
+        if id(f) not in cfgs:
+            cfgs[id(f)] = CFG(f)
+        return cfgs[id(f)]
+    # helpers: file-local free functions with a throwing comparison between parameters / bead counts
+    helpers = {}
+    for h in funcs:
+        if h.j.get("class"):
             continue
+        pnames = [p_["name"] for p_ in h.j["params"]]
+        for c in h.walk():
+            if c.get("k") != "binop" or c.get("op") not in ("==", "!="):
+                continue
+            l_, r_ = unwrap(c["lhs"]), unwrap(c["rhs"])
+            sides = []
+            for x in (l_, r_):
+                if is_count_call(x):
+                    sides.append(("count", None))
+                elif x.get("k") == "ref" and show(x) in pnames:
+                    sides.append(("param", pnames.index(show(x))))
+            if len(sides) == 2 and mismatch_throws(h, cfg_of(h), c) is True:
+                helpers.setdefault(h.qname, {"f": h, "cmps": []})["cmps"].append((c, sides))
+    guards_of = {}
+    for f in funcs:
+        if f.qname in helpers:
+            continue
+        base = os.path.basename(f.file)
+        g = None
         for n in f.walk():
-            if n.get("k") != "if":
-                continue
-            cond = n["cond"]
-            cmp_ = [x for x in walk(cond) if x.get("k") == "binop" and x["op"] in ("!=", "==") and
-                    any(y.get("k") == "mcall" and (y.get("callee") or "").endswith(("Topology::BeadCount", "XYZReader::getContainerSize"))
-                        and yy_direct(x, y) for y in walk(x))]
-            if not cmp_:
-                continue
-            op = cmp_[0]["op"]
-            branch = n["then"] if op == "!=" else n.get("else")
-            # lammpsdatareader line 538 compares after reading everything: also an error branch
-            throws = [x for x in walk(branch)] if branch else []
-            has_throw = any(x.get("k") == "throw" for x in throws)
-            discarded = [x for x in throws if x.get("k") == "construct" and "runtime_error" in (x.get("type") or "") and
-                         not any(a.get("k") == "throw" for a in f.ancestors(x))]
-            sites += 1
-            found[base] += 1
-            rep.analysed(f)
-            key = "count-guard|%s|%s#%d" % (base, f.qname.split("::")[-1], found[base])
-            if has_throw:
-                rep.holds("R8.2", key, "atom-count mismatch -> throw", f.loc(n), sample=True)
-            else:
-                why = "constructs a %s and discards it (missing 'throw')" % discarded[0]["type"].split("::")[-1] if discarded else "does not throw"
-                rep.violation("R8.2", key, "%s: the branch taken when the file's atom count differs from the topology %s: the frame is used anyway"
-                              % (f.qname, why), f.loc(n))
+            if n.get("k") == "binop" and n.get("op") in ("==", "!=") and any(is_count_call(x) for x in (n["lhs"], n["rhs"])):
+                g = g or cfg_of(f)
+                if not g.cond_blocks(n["id"]):
+                    continue
+                mt = mismatch_throws(f, g, n)
+                found[base] += 1
+                rep.analysed(f)
+                key = "count-guard|%s|%s#%d" % (base, f.qname.split("::")[-1], found[base])
+                if mt:
+                    rep.holds("R8.2", key, "atom-count mismatch -> throw", f.loc(n), sample=True)
+                    guards_of.setdefault(id(f), []).append(("cmp", n))
+                else:
+                    disc = [x for x in f.walk() if x.get("k") == "construct" and "runtime_error" in (x.get("type") or "") and abs((x.get("line") or 0) - (n.get("line") or 0)) <= 4 and
+                            not any(a.get("k") == "throw" for a in f.ancestors(x))]
+                    why = "constructs a %s and discards it (missing 'throw')" % disc[0]["type"].split("::")[-1] if disc else "can still return normally (it does not end in a throw)"
+                    rep.violation("R8.2", key, "%s: the branch taken when the file's atom count differs from the topology %s: the frame is used anyway" % (f.qname, why), f.loc(n))
+            elif n.get("k") == "call" and n.get("callee") in helpers:
+                hp = helpers[n["callee"]]
+                args_ = n.get("args") or []
+                hit = [c for c, sides in hp["cmps"] if any(k_ == "count" for k_, _i in sides) or
+                       any(k_ == "param" and i_ < len(args_) and any(is_count_call(y) for y in walk(args_[i_])) for k_, i_ in sides)]
+                if hit:
+                    found[base] += 1
+                    rep.analysed(f); rep.analysed(hp["f"])
+                    rep.holds("R8.2", "count-guard|%s|%s#%d" % (base, f.qname.split("::")[-1], found[base]),
+                              "atom-count mismatch -> throw (through helper %s)" % n["callee"].split("::")[-1], f.loc(n), sample=True)
+                    guards_of.setdefault(id(f), []).append(("call", n))
     # path form: in a reader function that carries a count guard, no bead is written on a path that passes none of the throwing guards
     # (a guard that exists for one sub-format only - e.g. DL_POLY HISTORY but not CONFIG - leaves the other sub-format unchecked)
-    for f in F.funcs:
+    for f in funcs:
         base = os.path.basename(f.file)
-        if base not in wanted or f.j["template"] == "pattern" or "cfg" not in f.j:
+        gl = guards_of.get(id(f), [])
+        if not gl:
             continue
-        guards = []
-        for n in f.walk():
-            if n.get("k") != "if":
-                continue
-            cmp_ = [x for x in walk(n["cond"]) if x.get("k") == "binop" and x["op"] in ("!=", "==") and
-                    any(y.get("k") == "mcall" and (y.get("callee") or "").endswith(("Topology::BeadCount", "XYZReader::getContainerSize"))
-                        and yy_direct(x, y) for y in walk(x))]
-            branch = (n["then"] if cmp_[0]["op"] == "!=" else n.get("else")) if cmp_ else None
-            if cmp_ and branch and any(x.get("k") == "throw" for x in walk(branch)):
-                guards.append(cmp_[0])
-        if not guards:
-            continue
-        g = CFG(f)
+        guards = [n for k_, n in gl if k_ == "cmp"]
+        g = cfg_of(f)
+        barrier = {g.where[n["id"]][0] for k_, n in gl if k_ == "call" and n["id"] in g.where}
         writes = [n for n in f.walk() if n.get("k") == "mcall" and (n.get("callee") or "").endswith(("Bead::setPos", "Bead::setVel", "Bead::setF")) and n["id"] in g.where]
         if not writes:
             continue
@@ -219,7 +270,7 @@ def check_count_guards(rep, F):
             for b, neg in g.cond_blocks(c["id"]):
                 passes = (c["op"] == "==")
                 removed.append((b, 0 if (passes != neg) else 1))
-        if not removed:
+        if not removed and not barrier:
             continue
         rem = set(removed)
         exits_ = set(g.exit_blocks(normal=True))
@@ -260,6 +311,8 @@ def check_count_guards(rep, F):
                     # the counter compared with BeadCount counts the beads written: it is positive once a bead was written
                     if post_write and c.get("k") == "binop" and c.get("op") == ">" and show(unwrap(c["lhs"])) in gvars and show(unwrap(c["rhs"])) == "0":
                         truth = (True != neg)
+            if b in barrier:
+                return            # every execution that continues behind a guard call had matching counts
             for i_, s_ in enumerate(g.succs[b]):
                 if s_ is None or (b, i_) in rem or (truth is not None and (i_ == 0) != truth):
                     continue
@@ -284,7 +337,7 @@ def check_count_guards(rep, F):
             for w in writes:
                 wb = g.where[w["id"]][0]
                 # unguarded: reachable, and the function can then return normally, never taking the failing edge of a guard
-                if wb in reach and (closure(wb, case, True) & exits_):
+                if wb in reach and wb not in barrier and (closure(wb, case, True) & exits_):
                     bad.append(w)
                     bad_case = case
                     break
